@@ -1086,4 +1086,3 @@ func c39SampleOf(c c39Case) map[string]any {
 	}
 	return m
 }
-
